@@ -51,7 +51,7 @@ HistActions ==
     \/ \E recv \in {rr \in {"r1", "r3"} : Defined(rr)}, ip \in BOOLEAN :
           \/ \E op \in {"append", "prepend", "expand"}, d \in MCDim : Mutate(op, recv, "r3", ip, d, "", 0)
           \/ \E d1 \in MCDim, d2 \in MCDim : ExpandMany(recv, "r3", ip, <<d1, d2>>)
-          \/ \E d \in MCDim : \E i \in 0..Len(ds[recv]) : (Defined(recv) /\ Mutate("insert", recv, "r3", ip, d, "", i))
+          \/ \E d \in MCDim : \E i \in (-(Len(ds[recv]) + 1))..(Len(ds[recv]) + 1) : (Defined(recv) /\ Mutate("insert", recv, "r3", ip, d, "", i))
           \/ \E k \in Keys(ds[recv]) : (Defined(recv) /\ Mutate("drop", recv, "r3", ip, "A", k, 0))
           \/ \E d \in MCDim : \E k \in Keys(ds[recv]) :
                 (/\ Defined(recv)
